@@ -198,11 +198,18 @@ func (c *Ctx) err1() {
 		cls := c.chanClass(g, s.Chan)
 		switch cls {
 		case "exchange":
+			// (a send inside a helper introduced later stands for one send per call of the helper)
+			w := 1
+			if c.isNewHelper(s.Fn) {
+				if k := len(c.callers()[s.Fn]); k > 1 {
+					w = k
+				}
+			}
 			if len(only) > 0 {
-				ns++
+				ns += w
 				continue
 			}
-			ns++
+			ns += w
 			cl := classes(ef.of(s.Val))
 			key := "ERR-1|exchange-send|in(" + load.FuncName(s.Fn) + ")|" + classList(cl)
 			ok := false
@@ -246,31 +253,38 @@ func (c *Ctx) err1() {
 
 // derivesFrom reports whether value r is built from v (through Errorf/Join
 // arguments, phis, conversions).
-func derivesFrom(r, v ssa.Value, depth int) bool {
-	if r == nil || v == nil || depth > 8 {
+func derivesFrom(r, v ssa.Value, depth int) bool { return derivesFromB(r, v, nil, depth) }
+
+// derivesFromB: binds maps the values of helpers expanded in place on the path
+// (parameters, calls) to what they stand for in the caller.
+func derivesFromB(r, v ssa.Value, binds map[ssa.Value]ssa.Value, depth int) bool {
+	if r == nil || v == nil || depth > 12 {
 		return false
 	}
 	if r == v {
 		return true
 	}
+	if b, ok := binds[r]; ok && b != r && derivesFromB(b, v, binds, depth+1) {
+		return true
+	}
 	switch x := r.(type) {
 	case *ssa.Phi:
 		for _, e := range x.Edges {
-			if derivesFrom(e, v, depth+1) {
+			if derivesFromB(e, v, binds, depth+1) {
 				return true
 			}
 		}
 	case *ssa.MakeInterface:
-		return derivesFrom(x.X, v, depth+1)
+		return derivesFromB(x.X, v, binds, depth+1)
 	case *ssa.ChangeInterface:
-		return derivesFrom(x.X, v, depth+1)
+		return derivesFromB(x.X, v, binds, depth+1)
 	case *ssa.Call:
 		if f := x.Call.StaticCallee(); f != nil {
 			switch stdName(f) {
 			case "fmt.Errorf", "errors.Join":
 				for _, a := range x.Call.Args {
 					for _, el := range variadic(a) {
-						if el != nil && derivesFrom(unwrapIface(el), v, depth+1) {
+						if el != nil && derivesFromB(unwrapIface(el), v, binds, depth+1) {
 							return true
 						}
 					}
@@ -314,7 +328,7 @@ func (c *Ctx) err2() {
 				continue
 			}
 			r := p.Events[last].Results[len(p.Events[last].Results)-1]
-			cl := classes(ef.of(r))
+			cl := classes(ef.ofOn(p, r))
 			isNS, isLimbo := "", false
 			for k := range cl {
 				if notSub[k] {
@@ -400,7 +414,7 @@ func (c *Ctx) err3() {
 					}
 				}
 			}
-			cl := classes(ef.of(r))
+			cl := classes(ef.ofOn(p, r))
 			want := "ErrCanceled"
 			if submitted {
 				want = "ErrAbandoned"
@@ -557,6 +571,7 @@ func (c *Ctx) sliceLiteralOrAppend(name string) (map[string]bool, bool) {
 // ---- ERR-5: Backoff / ReadBackoff ----
 
 func (c *Ctx) err5() {
+	c.err5Defaults()
 	bo := c.Fn("ERR-5", "(*Client).Backoff")
 	rb := c.Fn("ERR-5", "(*Client).ReadBackoff")
 	if bo != nil {
@@ -1043,7 +1058,7 @@ func (c *Ctx) err6() {
 			}
 			n++
 			res := p.Events[last].Results
-			cl := classes(ef.of(res[len(res)-1]))
+			cl := classes(ef.ofOn(p, res[len(res)-1]))
 			if cl["errProtoReset"] {
 				a.pass()
 			} else {
@@ -1068,7 +1083,7 @@ func (c *Ctx) err6() {
 				continue
 			}
 			res := p.Events[last].Results
-			cl := classes(ef.of(res[len(res)-1]))
+			cl := classes(ef.ofOn(p, res[len(res)-1]))
 			if cl["type:connectReturn"] {
 				refuse.pass()
 			}
@@ -1117,7 +1132,7 @@ func (c *Ctx) err7() {
 				n++
 				res := p.Events[last].Results
 				r := res[len(res)-1]
-				if derivesFrom(r, er, 0) {
+				if derivesFromB(r, er, pathBindings(p), 0) {
 					a.pass()
 				} else {
 					a.fail(p, last, "the packet was not (completely) written, yet the call returns %s, which does not stem from the write error: a request can report success, or somebody else's answer, for a packet that never went out", Expr(r))
